@@ -29,6 +29,36 @@ def babaiRun (n : Nat) (f g : List Int) : List (List Int) → List Int × List I
   | [], FG => FG
   | k :: ks, FG => if k.all (· == 0) then FG else babaiRun n f g ks (babaiStep n f g FG k)
 
+/-! ### the tower of NTRUSolve: `field_norm`, `lift_next_cyclotomic`, `galois_adjoint` of polynomial.rs -/
+
+def evens : List Int → List Int
+  | x :: _ :: rest => x :: evens rest
+  | [x] => [x]
+  | [] => []
+
+def odds : List Int → List Int
+  | _ :: y :: rest => y :: odds rest
+  | _ => []
+
+/-- `galois_adjoint`: flip the sign of the odd coefficients, f(X) ↦ f(−X) -/
+def adjoint : List Int → List Int
+  | x :: y :: rest => x :: (-y) :: adjoint rest
+  | [x] => [x]
+  | [] => []
+
+/-- `lift_next_cyclotomic`: interleave zeros, f(X) ↦ f(X²) -/
+def lift : List Int → List Int
+  | [] => []
+  | x :: rest => x :: 0 :: lift rest
+
+/-- `field_norm` for a polynomial of length n: f0² − X·f1² in Z[X]/(X^{n/2}+1), f0 / f1 the even / odd parts -/
+def fieldNorm (n : Nat) (f : List Int) : List Int :=
+  subL (negacyc (n / 2) (evens f) (evens f)) (mulX (negacyc (n / 2) (odds f) (odds f)))
+
+/-- the lifting step of NTRUSolve: F = lift(F')⋆g^⋆, G = lift(G')⋆f^⋆ (karatsuba, then reduction by Xⁿ+1) -/
+def liftStep (n : Nat) (f g cF' cG' : List Int) : List Int × List Int :=
+  (negacyc n (lift cF') (adjoint g), negacyc n (lift cG') (adjoint f))
+
 /-- f⋆G − g⋆F -/
 def ntruLhs (n : Nat) (f g F G : List Int) : List Int := subL (negacyc n f G) (negacyc n g F)
 
